@@ -58,8 +58,9 @@ def sleep_role(g, node, call: ast.Call) -> str:
     a = kwarg(call, 'delays', 0)
     exprs = expand(g, node, a)
     at = attrs_in(exprs)
-    # one more level for the locals inside an arithmetic expression (`interval - passed % interval`)
-    if 'initial_delay' in at:
+    # one more level for the locals inside a compound expression (`d(**kw) if callable(d) else d` with `d = handler.initial_delay`)
+    inner = [x for e in exprs if not isinstance(e, ast.Name) for nm_ in ast.walk(e) if isinstance(nm_, ast.Name) for x in expand(g, node, nm_, 1) if x is not nm_]
+    if 'initial_delay' in at or 'initial_delay' in attrs_in(inner):
         return 'initial'
     if at & {'delays', 'delay'}:
         return 'error'
